@@ -350,9 +350,14 @@ theorem dative_direction (m : Mol) (metal donor : Nat) (hm : inorganicZ.contains
 theorem orient_same_bond (m : Mol) (n k : Nat) : orient m n k = (n, k) ∨ orient m n k = (k, n) := by
   unfold orient; split <;> simp
 
-/-- `_inorganic`, as atomic numbers, is exactly the set the source lists (noble gases He–Xe, halogens F–I, C N O H, Si P S Se Ge As Sb Te) -/
-theorem inorganic_table : inorganicZ = [1, 2, 6, 7, 8, 9, 10, 14, 15, 16, 17, 18, 32, 33, 34, 35, 36, 51, 52, 53, 54] ∧
-    inorganic.length = inorganicZ.length := by decide
+/-- `_inorganic` separates donors from acceptors the way the direction rule needs: no element that chython itself classifies
+as a metal (`is_forming_single_bonds = False`, noble gases aside) is listed, and every usual donor element (C N O F P S Cl Br I and H) is.
+So every bond between such a donor and a metal is oriented donor → metal (`dative_direction`). -/
+theorem inorganic_vs_metals :
+    (∀ row ∈ periodicTable, row.single = false → [2, 10, 18, 36, 54, 86, 118].contains row.z = false →
+      inorganicZ.contains row.z = false) ∧
+    (∀ z ∈ [1, 6, 7, 8, 9, 15, 16, 17, 35, 53], inorganicZ.contains z = true) ∧
+    inorganic.length = inorganicZ.length ∧ inorganicZ.Nodup := by decide +kernel
 
 /-! ## 7. shape of the converted molecules: atom order, map numbers, coordinates, neighbour order -/
 
